@@ -9,7 +9,7 @@ CLASSES = {1: "IN", 2: "CS", 3: "CH", 4: "HS", 254: "NONE"}
 QSPECIAL = {251: "IXFR", 252: "AXFR", 253: "MAILB", 254: "MAILA", 255: "ANY"}
 
 SLICE = "CODE (all 65536 codes x TYPE/CLASS/QTYPE/QCLASS) + MATCH (record type x class x question type x question class)"
-RULE = ("exhaustive: every 16-bit code through TYPE/CLASS/QTYPE/QCLASS conversion and back; MATCH over all supported "
+RULE = ("exhaustive: every 16-bit code through TYPE/CLASS/QTYPE/QCLASS conversion and back; every 16-bit record type code against the group question types, itself and its neighbours; MATCH over all supported "
         "type codes + unknown codes x all classes x all accepted question types (+ directly built TYPE(Unknown)) x all "
         "question classes. A case is non-trivial when the conversion succeeds or the match table row is distinct; "
         "distinct = distinct canonical output lines")
@@ -33,6 +33,13 @@ def cases(rng, tier):
             for qt in qts:
                 for qc in list(CLASSES) + [255]:
                     out.append("MATCH %x %x %x %x" % (rt, rc, qt, qc))
+    # every one of the 65536 record type codes against the question types that stand for groups (MAILB, MAILA, ANY, AXFR, IXFR),
+    # against its own code and against its neighbour: a group test written with bit tricks must be right for every code,
+    # not only for the supported ones
+    for rt in range(65536):
+        for qt in (253, 254, 255, 252, 251, rt, (rt + 1) & 0xFFFF, (rt + 64) & 0xFFFF, rt ^ 0x100):
+            out.append("MATCH %x 1 %x 1" % (rt, qt))
+        out.append("MATCHN %x 1 fd ff" % rt)
     # records held as RData::NULL(code, data), by construction
     for rt in rts:
         for qt in qts:
